@@ -954,9 +954,9 @@ class ExistsCriterion(Criterion):
             container=self.container.get_sql(**kwargs), not_='NOT ' if self._is_negated else ''
         )
 
+    @builder
     def negate(self):
         self._is_negated = True
-        return self
 
 
 class RangeCriterion(Criterion):
@@ -1242,7 +1242,7 @@ class Case(Criterion):
 
     @builder
     def when(self, criterion: Any, term: Any) -> "Case":
-        self._cases.append((criterion, self.wrap_constant(term)))
+        self._cases = self._cases + [(criterion, self.wrap_constant(term))]
 
     @builder
     def replace_table(self, current_table: Optional["Table"], new_table: Optional["Table"]) -> "Case":
@@ -1467,7 +1467,7 @@ class AggregateFunction(Function):
     @builder
     def filter(self, *filters: Any) -> "AnalyticFunction":
         self._include_filter = True
-        self._filters += filters
+        self._filters = self._filters + list(filters)
 
     def get_filter_sql(self, **kwargs: Any) -> str:
         if self._include_filter:
@@ -1498,12 +1498,12 @@ class AnalyticFunction(AggregateFunction):
     @builder
     def over(self, *terms: Any) -> "AnalyticFunction":
         self._include_over = True
-        self._partition += terms
+        self._partition = self._partition + list(terms)
 
     @builder
     def orderby(self, *terms: Any, **kwargs: Any) -> "AnalyticFunction":
         self._include_over = True
-        self._orderbys += [(term, kwargs.get("order")) for term in terms]
+        self._orderbys = self._orderbys + [(term, kwargs.get("order")) for term in terms]
 
     def _orderby_field(self, field: Field, orient: Optional[Order], **kwargs: Any) -> str:
         if orient is None:
